@@ -11,7 +11,8 @@ VERIF = os.path.dirname(os.path.dirname(os.path.abspath(__file__)))
 
 def main():
     rows, seen = [], set()
-    paths = [os.path.join(VERIF, 'known_findings.jsonl')] + sorted(glob.glob(os.path.join(VERIF, 'known_findings.d', '*.jsonl')))
+    # fragments first: they are the source; an entry of the merged file survives only if no fragment has its (property, id)
+    paths = sorted(glob.glob(os.path.join(VERIF, 'known_findings.d', '*.jsonl'))) + [os.path.join(VERIF, 'known_findings.jsonl')]
     for p in paths:
         if not os.path.exists(p):
             continue
@@ -20,7 +21,7 @@ def main():
             if not ln or ln.startswith('#'):
                 continue
             d = json.loads(ln)
-            k = (d['property'], d['id'], d['status'])
+            k = (d['property'], d['id'])
             if k in seen:
                 continue
             seen.add(k)
